@@ -301,7 +301,8 @@ func ruleIndexVar(scopeFiles ...string) func(c *Ctx) {
 			}
 		}
 		if n == 0 {
-			c.S.Undecided("R-C13-index-var", "sites", "-", "no variable-index access found in the pattern matcher")
+			// a matcher written without index loops (a library call, a compiled pattern) has nothing this rule can judge
+			c.S.Trivial("R-C13-index-var", "sites", "-", "no function indexes a parameter and compares its elements with both wildcards: not decided for a matcher of another shape")
 		}
 	}
 }
